@@ -76,6 +76,12 @@ Proof.
 Qed.
 Lemma ok_expr_rhs : forall B e, ok_expr B e = true -> ok_rhs B e = true.
 Proof. intros B e H. unfold ok_rhs. rewrite ok_cexpr_eq, H. reflexivity. Qed.
+(* the upper bound of a from loop: the VM evaluates it AFTER it has bound the counter; with a named counter it is
+   call-free, with a hidden counter (a register) it may contain calls *)
+Definition ok_fromb (nm : option str) (B : list str) (b : expr) : bool :=
+  match nm with None => ok_rhs B b | Some _ => ok_expr B b end.
+Lemma ok_fromb_rhs : forall nm B b, ok_fromb nm B b = true -> ok_rhs B b = true.
+Proof. intros [x|] B b H; [now apply ok_expr_rhs|exact H]. Qed.
 Fixpoint ok_stmt (il : bool) (B : list str) (s : stmt) {struct s} : bool :=
   let fix okb (il : bool) (B : list str) (l : list stmt) {struct l} : bool :=
     match l with [] => true | s :: l => ok_stmt il B s && okb il (after B s) l end in
@@ -91,8 +97,8 @@ Fixpoint ok_stmt (il : bool) (B : list str) (s : stmt) {struct s} : bool :=
   | SIfElif c b n => ok_rhs (B ++ CD) c && okb il B b && ok_stmt il B n
   | SWhile c b => ok_rhs (B ++ CD) c && okb true B b
   | SFrom a b _ st nm collide body =>
-    (* the lower bound may contain calls; the upper bound (which the VM evaluates AFTER it has bound the counter) may not *)
-    ok_rhs (B ++ CD) a && ok_expr (B ++ CD) b &&
+    (* the lower bound may contain calls; the upper bound too if the counter is hidden *)
+    ok_rhs (B ++ CD) a && ok_fromb nm (B ++ CD) b &&
     match nm, collide with
     | Some x, false =>   (* a fresh counter: a variable of the enclosing block for the duration of the loop *)
       src_nameb x && negb (mem_str x (fnames FT)) && negb (mem_str x B) && negb (mem_str x (used_e b)) && step_ok ((x :: B) ++ CD) st && okb true (x :: B) body
@@ -119,7 +125,7 @@ Proof. reflexivity. Qed.
 Lemma ok_SWhile : forall il B c b, ok_stmt il B (SWhile c b) = ok_rhs (B ++ CD) c && ok_block true B b.
 Proof. reflexivity. Qed.
 Lemma ok_SFrom : forall il B a b incl st nm collide body, ok_stmt il B (SFrom a b incl st nm collide body) =
-  ok_rhs (B ++ CD) a && ok_expr (B ++ CD) b &&
+  ok_rhs (B ++ CD) a && ok_fromb nm (B ++ CD) b &&
   match nm, collide with
   | Some x, false => src_nameb x && negb (mem_str x (fnames FT)) && negb (mem_str x B) && negb (mem_str x (used_e b)) && step_ok ((x :: B) ++ CD) st && ok_block true (x :: B) body
   | Some x, true => src_nameb x && negb (mem_str x (fnames FT)) && mem_str x B && match used_e b with [] => true | _ => false end && step_ok (B ++ CD) st && ok_block true B body
@@ -476,10 +482,10 @@ Proof.
                                 = (step_code c step, stx)).
     { intros stx. destruct step as [e|]; [|reflexivity]. cbn [step_ok] in Hst. cbn [step_code]. now rewrite (cexpr_ok B'). }
     destruct nm as [x|].
-    + cbn [from_idn from_lr1]. rewrite (cexpr_rhs FT SP (B ++ CD)) by assumption. rewrite (cexpr_rhs FT SP (B ++ CD)) by exact (ok_expr_rhs FT SP _ _ Hob).
+    + cbn [from_idn from_lr1]. rewrite (cexpr_rhs FT SP (B ++ CD)) by assumption. rewrite (cexpr_rhs FT SP (B ++ CD)) by exact (ok_fromb_rhs FT SP _ _ _ Hob).
       cbv zeta. rewrite (cblockT_frag c body Hbody FT SP CD true B'' _ _) by assumption. cbn [lreg fid fbuf].
       rewrite Hstep. cbn [lreg fid fbuf]. rewrite Est1. reflexivity.
-    + cbn [from_idn from_lr1]. rewrite (cexpr_rhs FT SP (B ++ CD)) by assumption. rewrite (cexpr_rhs FT SP (B ++ CD)) by exact (ok_expr_rhs FT SP _ _ Hob).
+    + cbn [from_idn from_lr1]. rewrite (cexpr_rhs FT SP (B ++ CD)) by assumption. rewrite (cexpr_rhs FT SP (B ++ CD)) by exact (ok_fromb_rhs FT SP _ _ _ Hob).
       cbv zeta. cbn [lreg fid fbuf]. rewrite (cblockT_frag c body Hbody FT SP CD true B'' _ _) by assumption. cbn [lreg fid fbuf].
       rewrite Hstep. cbn [lreg fid fbuf]. rewrite Est2. reflexivity.
   - intros FT SP CD il B sl st H. reflexivity.
